@@ -109,6 +109,14 @@ impl<'a> World<'a> {
         e
     }
 
+    /// ServerStats::clear() on both recorders of a worker
+    fn clear(&mut self, w: usize) -> Value {
+        let r = guarded(|| { self.workers[w].per.clear(); self.workers[w].agg.clear(); });
+        let mut e = json!({"ev": "clear", "w": w + 1, "post": self.projection(w)});
+        if let Err(p) = r { e["panic"] = json!(p); e["ev"] = json!("panic"); }
+        e
+    }
+
     /// what Server::send_client_stats does with its recorder and queue
     fn snapshot(&mut self, w: usize) -> Value {
         let per = &mut self.workers[w].per;
@@ -192,6 +200,7 @@ pub fn replay(path: &str, out_path: &str) {
             let e = match op["op"].as_str().unwrap_or("") {
                 "rec" => world.rec(op["w"].as_u64().unwrap() as usize - 1, op["k"].as_u64().unwrap(), op["a"].as_u64().unwrap(), op["b"].as_u64().unwrap()),
                 "snapshot" => world.snapshot(op["w"].as_u64().unwrap() as usize - 1),
+                "clear" => world.clear(op["w"].as_u64().unwrap() as usize - 1),
                 "merge" => world.merge(),
                 "report" => world.report(),
                 _ => continue,
@@ -221,6 +230,7 @@ pub fn record(seed: u64, tier: &str, out_path: &str) {
             let e = match rng.below(100) {
                 0..=1 => world.snapshot(w),
                 2 => world.merge(),
+                3 if rng.chance(1, 3) => world.clear(w),
                 _ => { let k = rng.range(1, 8); let a = rng.range(1, N_ADDRS); let b = if k >= 7 { rng.range(300, 1500) } else { 0 }; world.rec(w, k, a, b) }
             };
             writeln!(out, "{}", e).unwrap();
